@@ -33,6 +33,9 @@ def generate(rng, tier, idx):
     c = supcase.gen_case(rng, tier, semi=True, metrics=metrics, max_n=30 if tier == "quick" else 60)
     if idx % 4 == 0:
         c["U"] = []
+        c["empty_U_as"] = ["2d", "list", "array1d", "2d"][(idx // 4) % 4]
+        if c.get("prefit"):
+            c["prefit"]["U"] = c["prefit"]["U"] or c["prefit"]["X"][:2]        # the earlier fit of the same object HAD unlabeled rows
     return c
 
 
